@@ -171,6 +171,7 @@ static inline bool RBF(size_same)(RB_C o, const RB_C *n) { return RBF(size)(n) =
 static inline bool RBF(has_o)(RB_C o, uint64_t k) { return RBF(has)(&o, k); }
 static inline uint64_t RBF(val_o)(RB_C o, uint64_t k) { return RBF(val)(&o, k); }
 static inline uint64_t RBF(size_o)(RB_C o) { return RBF(size)(&o); }
+static inline uint64_t RBF(ord_o)(RB_C o, uint64_t k) { return RBF(ord)(&o, k); }
 static inline uint64_t RBF(key_of_slot_o)(RB_C o, uint64_t idx) { return RBF(key_of_slot)(&o, idx); }
 static inline uint64_t RBF(entry_key_o)(RB_C o, cstl_iter kp) { return RBF(entry_key)(&o, kp); }
 static inline uint64_t RBF(victim_o)(RB_C o) { return RBF(victim)(&o); }
